@@ -48,6 +48,7 @@ type PropConf struct {
 	Bounds      map[string]string `json:"bounds_text"`
 	FmtInts     bool              `json:"fmt_ints"`
 	HashInj     bool              `json:"hash_injective"`
+	MathBig     bool              `json:"math_big"` // interpret math/big (and run apd's table-building initialisers: about 20 s of start-up)
 	StubText    []string          `json:"stub_text"`
 	Sched       bool              `json:"sched"`            // harnesses start goroutines: native builds use the schedule-replay instrumentation
 	SchedPkgs   []string          `json:"sched_instrument"` // extra package import paths to instrument (the harness packages always are)
@@ -350,7 +351,7 @@ func cmdCheck(args []string) int {
 	t0 := time.Now()
 	repo := envOr("VERIF_REPO", "/repo")
 	verif := envOr("VERIF_HOME", "/verif")
-	work := filepath.Join(verif, ".work", prop)
+	work := filepath.Join(verif, ".work", prop+envOr("VERIF_WORKTAG", ""))
 	os.RemoveAll(work)
 	os.MkdirAll(work, 0o755)
 	seed, _ := strconv.ParseInt(envOr("VERIF_SEED", "1"), 10, 64)
@@ -365,10 +366,12 @@ func cmdCheck(args []string) int {
 		fmt.Fprintf(os.Stderr, "property %s not configured in props.json\n", prop)
 		return 2
 	}
+	sx.EnableBig = pc.MathBig
 	findings := loadFindings(verif)
-	evPath := filepath.Join(verif, "evidence", prop+".json")
+	evDir := envOr("VERIF_EVIDENCE", filepath.Join(verif, "evidence")) // seed evaluation writes elsewhere
+	evPath := filepath.Join(evDir, prop+".json")
 	os.Remove(evPath)
-	if onlyStale, _ := filepath.Glob(filepath.Join(verif, "evidence", "replays", prop+"-*.json")); len(onlyStale) > 0 {
+	if onlyStale, _ := filepath.Glob(filepath.Join(evDir, "replays", prop+"-*.json")); len(onlyStale) > 0 {
 		for _, f := range onlyStale {
 			os.Remove(f) // replay files belong to one run: stale ones from earlier runs are dropped
 		}
@@ -732,7 +735,7 @@ func cmdCheck(args []string) int {
 			switch status {
 			case "reproduced-natively":
 				// keep the replay file under /verif/evidence/replays
-				keep := filepath.Join(verif, "evidence", "replays", prop+"-"+r.Name+"-"+sanitize(id)+".json")
+				keep := filepath.Join(envOr("VERIF_EVIDENCE", filepath.Join(verif, "evidence")), "replays", prop+"-"+r.Name+"-"+sanitize(id)+".json")
 				os.MkdirAll(filepath.Dir(keep), 0o755)
 				if raw, err := os.ReadFile(replayFile); err == nil {
 					os.WriteFile(keep, raw, 0o644)
